@@ -49,11 +49,23 @@ MQuery ==
                                pres |-> {[k |-> x, v |-> kv[x]] : x \in PresentKeys(kv)}])
 
 \* ---- range claims
-RangeTrue(first, last) == {k \in PresentKeys(kv) : Leq(first, k) /\ Leq(k, last)}
+(* The left boundary `first` of a claim is a model key, or a key that agrees with a model key k on its
+   first j bits and then LEAVES THE KEY SPACE OF THE MODEL inside the padding run that follows bit j
+   under the harness's bit-expansion embedding (j = 0: inside the root edge; 0 < j < H: inside an
+   internal or leaf edge), on the LEFT side of that edge (dir = "below": smaller than every key with
+   that prefix) or on its RIGHT side (dir = "above").  Such a key is always absent; the real tries
+   have a long edge exactly there.  j = H, dir = "exact" is the model key itself. *)
+Firsts(ks) == {[k |-> k, j |-> H, dir |-> "exact"] : k \in ks}
+              \cup {[k |-> k, j |-> j, dir |-> d] : k \in ks, j \in 0..(H - 1), d \in {"below", "above"}}
+\* first <= p
+GeF(p, f) == IF f.j = H THEN Leq(f.k, p)
+             ELSE IF Take(p, f.j) = Take(f.k, f.j) THEN f.dir = "below"
+             ELSE BitsVal(Take(f.k, f.j)) < BitsVal(Take(p, f.j))
+RangeTrue(f, last) == {k \in PresentKeys(kv) : GeF(k, f) /\ Leq(k, last)}
 MinKey(S) == CHOOSE k \in S : \A x \in S : Leq(k, x)
 Pairs(S) == {[k |-> k, v |-> kv[k]] : k \in S}
-RangeMutations(first, last) ==
-  LET T == RangeTrue(first, last) IN
+RangeMutations(f, last) ==
+  LET T == RangeTrue(f, last) IN
   {[m |-> "none", claim |-> Pairs(T), expect |-> "accept"]}
   \cup (IF Cardinality(T) >= 2
         THEN {[m |-> "omit-left", claim |-> Pairs(T \ {MinKey(T)}), expect |-> IF LeftEdgeChecked THEN "reject" ELSE "left-edge"]}
@@ -67,23 +79,42 @@ RangeMutations(first, last) ==
   \cup {[m |-> "alter-value", claim |-> (Pairs(T \ {x}) \cup {[k |-> x, v |-> (kv[x] % MaxV) + 1]}), expect |-> "reject"] :
           x \in {y \in T : MaxV > 1}}
   \cup {[m |-> "add-absent", claim |-> (Pairs(T) \cup {[k |-> x, v |-> 1]}), expect |-> "reject"] :
-          x \in {y \in Keys : kv[y] = 0 /\ Less(first, y) /\ Less(y, last)}}
+          x \in {y \in Keys : kv[y] = 0 /\ GeF(y, f) /\ Less(y, last) /\ (f.j = H => y # f.k)}}
   \cup {[m |-> "claim-empty", claim |-> {}, expect |-> "reject"]}
 
+PresProj == {[k |-> x, v |-> kv[x]] : x \in PresentKeys(kv)}
 RQuery ==
-  \E impl \in R(Impls), first \in R(Keys \cup Near) :
-    LET later == {k \in PresentKeys(kv) : Leq(first, k)} IN
+  \E impl \in R(Impls), f \in R(Firsts(Keys \cup Near)) :
+    LET later == {k \in PresentKeys(kv) : GeF(k, f)} IN
     IF later = {}
     THEN \* nothing at or after `first`: the empty claim is the true one
-      /\ act' = [name |-> "Range", impl |-> impl, first |-> first, last |-> first, m |-> "none-empty", claim |-> {}, whole |-> FALSE]
+      /\ act' = [name |-> "Range", impl |-> impl, first |-> f, m |-> "none-empty", claim |-> {}, whole |-> FALSE]
       /\ res' = Err /\ UNCHANGED kv
-      /\ hist' = Append(hist, [a |-> act', expect |-> "accept", more |-> FALSE,
-                               pres |-> {[k |-> x, v |-> kv[x]] : x \in PresentKeys(kv)}])
-    ELSE \E last \in R(later) : \E mu \in R(RangeMutations(first, last)) :
-      /\ act' = [name |-> "Range", impl |-> impl, first |-> first, last |-> last, m |-> mu.m, claim |-> mu.claim, whole |-> FALSE]
+      /\ hist' = Append(hist, [a |-> act', expect |-> "accept", more |-> FALSE, pres |-> PresProj])
+    ELSE \E last \in R(later) : \E mu \in R(RangeMutations(f, last)) :
+      /\ act' = [name |-> "Range", impl |-> impl, first |-> f, m |-> mu.m, claim |-> mu.claim, whole |-> FALSE]
       /\ res' = Err /\ UNCHANGED kv
       /\ hist' = Append(hist, [a |-> act', expect |-> mu.expect, more |-> (\E k \in PresentKeys(kv) : Less(last, k)),
-                               pres |-> {[k |-> x, v |-> kv[x]] : x \in PresentKeys(kv)}])
+                               pres |-> PresProj])
+
+\* the EMPTY claim ("nothing at or after first") for a boundary at every divergence position: true iff no
+\* present key is >= first; a responder that withholds entries must be caught by the has-right-element test
+EQuery ==
+  \E impl \in R(Impls), f \in R(Firsts(Keys \cup Near \cup PresentKeys(kv))) :
+    LET later == {k \in PresentKeys(kv) : GeF(k, f)} IN
+    /\ act' = [name |-> "Range", impl |-> impl, first |-> f, m |-> IF later = {} THEN "none-empty" ELSE "claim-empty",
+               claim |-> {}, whole |-> FALSE]
+    /\ res' = Err /\ UNCHANGED kv
+    /\ hist' = Append(hist, [a |-> act', expect |-> IF later = {} THEN "accept" ELSE "reject", more |-> FALSE, pres |-> PresProj])
+\* ... and the same with a boundary inside an edge, on its left side: the shape that needs the has-right test
+EQueryLeft ==
+  \E impl \in R(Impls), k \in R(PresentKeys(kv) \cup Near), j \in R(0..(H - 1)) :
+    LET f == [k |-> k, j |-> j, dir |-> "below"]
+        later == {x \in PresentKeys(kv) : GeF(x, f)} IN
+    /\ act' = [name |-> "Range", impl |-> impl, first |-> f, m |-> IF later = {} THEN "none-empty" ELSE "claim-empty",
+               claim |-> {}, whole |-> FALSE]
+    /\ res' = Err /\ UNCHANGED kv
+    /\ hist' = Append(hist, [a |-> act', expect |-> IF later = {} THEN "accept" ELSE "reject", more |-> FALSE, pres |-> PresProj])
 
 \* the whole trie without any proof (proof = nil): the claim must be the complete content
 WQuery ==
@@ -91,7 +122,7 @@ WQuery ==
     LET T == PresentKeys(kv) IN
     \E mu \in R({[m |-> "none", claim |-> Pairs(T), expect |-> "accept"]}
                \cup {[m |-> "omit", claim |-> Pairs(T \ {x}), expect |-> "reject"] : x \in T}) :
-      /\ act' = [name |-> "Range", impl |-> impl, first |-> [i \in 1..H |-> 0], last |-> [i \in 1..H |-> 1], m |-> mu.m, claim |-> mu.claim, whole |-> TRUE]
+      /\ act' = [name |-> "Range", impl |-> impl, first |-> [k |-> [i \in 1..H |-> 0], j |-> H, dir |-> "exact"], m |-> mu.m, claim |-> mu.claim, whole |-> TRUE]
       /\ res' = Err /\ UNCHANGED kv
       /\ hist' = Append(hist, [a |-> act', expect |-> mu.expect, more |-> FALSE,
                                pres |-> {[k |-> x, v |-> kv[x]] : x \in PresentKeys(kv)}])
@@ -105,7 +136,7 @@ PutStep ==
 
 \* build first (a few keys), then query
 Step == IF Len(hist) < 5 THEN PutStep
-        ELSE \/ MQuery \/ MQuery \/ MQuery \/ RQuery \/ RQuery \/ WQuery \/ PutStep
+        ELSE \/ MQuery \/ MQuery \/ MQuery \/ RQuery \/ RQuery \/ EQuery \/ EQueryLeft \/ WQuery \/ PutStep
 
 Emit == /\ PrintT(ToJson(hist))
         /\ kv' = EmptyKV /\ act' = [name |-> "Init"] /\ res' = Err /\ hist' = <<>>
